@@ -27,12 +27,15 @@ YearOK(e) ==
        /\ SeqToSet(e.hol) = WeekdayHolidays(e.name, e.y)            \* holiday exactly when the rules say so
        /\ SeqToSet(e.nonbus) = WeekdayHolidays(e.name, e.y)         \* ... and business otherwise
        /\ e.weekend_bus_count = 0
-  ELSE IF e.name = "bus" THEN e.hol = <<>> /\ e.nonbus = <<>> /\ e.weekend_bus_count = 0
-  ELSE IF e.name = "all" THEN e.hol = <<>> /\ e.nonbus = <<>> /\ e.weekend_bus_count = e.weekend_days
+  \* ('all' and 'bus' have no holidays: on no day of the week)
+  ELSE IF e.name = "bus" THEN e.hol = <<>> /\ e.nonbus = <<>> /\ e.weekend_bus_count = 0 /\ e.weekend_hol_count = 0
+  ELSE IF e.name = "all" THEN e.hol = <<>> /\ e.nonbus = <<>> /\ e.weekend_bus_count = e.weekend_days /\ e.weekend_hol_count = 0
   ELSE /\ WeekdayOneSided(e.name, e.y) \subseteq SeqToSet(e.hol)     \* one-sided: documented holidays are holidays
        /\ e.weekend_bus_count = 0
 ResolveOK(e) == /\ e.o = "ok"
-                /\ (e.via = "NamedCal" => e.bus = e.ref /\ e.stl_all)
+                \* (the same calendar through its name: same business days, every day settles, and the same answer to
+                \*  "is this day a holiday" on every day of 1970-2200 - through the named calendar and the generic container)
+                /\ (e.via = "NamedCal" => e.bus = e.ref /\ e.stl_all /\ e.hol_diff_n = 0)
 
 \* ---- C06 ------------------------------------------------------------------------
 NameOK(e) ==
